@@ -387,6 +387,7 @@ fn find_store_consistency() {
         // remove data (strict and not), remove a key, remove a resource, remove a dataset
         for (hist, op) in [
             ("remove_data d0/k0=x non-strict", 0), ("remove_data d0/k0=x strict", 1), ("remove_key d0/k1 strict", 2), ("remove_resource r0", 3), ("remove_dataset d1", 4), ("remove_resource r1", 5), ("remove_dataset d0", 6),
+            ("protect_text(Text)", 7), ("protect_text(Checksum)", 8), ("protect_text(Both) twice, then remove A1", 9),
         ] {
             let mut store = consistency_base(mk());
             let res = match op {
@@ -395,7 +396,10 @@ fn find_store_consistency() {
                 3 => store.remove_resource("r0"),
                 4 => store.remove_dataset("d1"),
                 5 => store.remove_resource("r1"),
-                _ => store.remove_dataset("d0"),
+                6 => store.remove_dataset("d0"),
+                7 => store.protect_text(TextValidationMode::Text),
+                8 => store.protect_text(TextValidationMode::Checksum),
+                _ => store.protect_text(TextValidationMode::Both).and_then(|_| store.protect_text(TextValidationMode::Both)).and_then(|_| { let h = store.annotation("A1").unwrap().handle(); store.remove_annotation(h) }),
             };
             if let Err(e) = &res { println!("(history '{}' not applicable: {:?})", hist, e); continue; }
             if let Some(e) = store_inconsistency(&store) { println!("WITNESS {{\"clause\":\"store consistency\",\"config\":\"{}\",\"history\":\"{}\",\"inconsistency\":{:?}}}", cname, hist, e); return; }
